@@ -71,7 +71,7 @@ type typedOps interface {
 	NewRowGroupReader(rg parquet.RowGroup, opts ...parquet.ReaderOption) greader
 	Read(r greader, rows reflect.Value) (int, error)
 	ReadAll(r io.ReaderAt, size int64, opts ...parquet.ReaderOption) (reflect.Value, error) // parquet.Read[T]
-	WriteAll(w io.Writer, rows reflect.Value, opts ...parquet.WriterOption) error          // parquet.Write[T]
+	WriteAll(w io.Writer, rows reflect.Value, opts ...parquet.WriterOption) error           // parquet.Write[T]
 	NewBuffer(opts ...parquet.RowGroupOption) gbuffer
 	BufferWrite(b gbuffer, rows reflect.Value) (int, error)
 	NewRowBuffer(opts ...parquet.RowGroupOption) growbuffer
